@@ -235,8 +235,9 @@ def overlay (old : Bytes) (off : Nat) (new : Bytes) : Bytes :=
   else
     let a := old.toArray
     let b := new.toArray
-    (List.range (max old.length (off + new.length))).map fun i =>
-      if off ≤ i ∧ i < off + new.length then b.getD (i - off) 0 else a.getD i 0
+    let hi := off + b.size
+    (List.range (max a.size hi)).map fun i =>
+      if off ≤ i ∧ i < hi then b.getD (i - off) 0 else a.getD i 0
 
 /-- an empty block of `n` 128-byte units: the 20-byte header
 `(block size 128, 0, file size 0, n − 1 further blocks, 0 used)` followed by zeros -/
